@@ -1,11 +1,12 @@
 #!/bin/sh
-# refeval.sh <Rk> : all quick checks against a scratch copy with the refactoring applied; prints rc per property
-R=$1
+# dev_refeval.sh <patch.diff> <tag> [properties...] : quick checks against a scratch copy of /repo HEAD with a (behaviour-preserving) patch applied; prints rc per property
+PATCH=$1; R=$2; shift; shift
+PROPS=${*:-C01 C02 C03 C04 C05 C06 C07 C08 C09 C10 C11 C12 C13 C14 C15 C16 C17 C18}
 D=$(mktemp -d /tmp/tlx-ref-XXXXXX)
 git -C /repo archive HEAD | tar -x -C "$D"
-( cd "$D" && patch -p1 -s < /tmp/refout/$R/patch.diff ) || { echo "$R patch failed"; rm -rf "$D"; exit 3; }
+( cd "$D" && patch -p1 -s < "$PATCH" ) || { echo "$R patch failed"; rm -rf "$D"; exit 3; }
 cd /verif
-for p in C01 C02 C03 C04 C05 C06 C07 C08 C09 C10 C11 C12 C13 C14 C15 C16 C17 C18; do
+for p in $PROPS; do
   TLEXPORT_REPO="$D" timeout 1500 ./check $p --no-evidence > /tmp/refeval_${R}_$p.log 2>&1; rc=$?
   echo "$R $p rc=$rc $(grep -v auto_activate /tmp/refeval_${R}_$p.log | grep '^property' | sed 's/.*: //' | cut -c1-90)"
   grep -v auto_activate /tmp/refeval_${R}_$p.log | grep "^VIOLATION\|^UNDECIDED\|^CHECKER" | cut -c1-260 | sort | uniq -c | head -6
